@@ -456,6 +456,19 @@ impl Node {
         ));
     }
 
+    // Prep-style target of a ret_to! (only runs while the actor is in Prep; leaves it there)
+    fn initret(cx: CX![], aid: i64, rid: i64, v: Option<i64>) -> Option<Self> {
+        ev(format!(
+            r#"{{"e":"rcall","rid":{},"aid":{},"has":{},"val":{},"now":{},"prep":true}}"#,
+            rid,
+            aid,
+            v.is_some(),
+            v.unwrap_or(0),
+            tj(cx.now())
+        ));
+        None
+    }
+
     // Target of ret_some_to!
     fn retsome(&mut self, cx: CX![], rid: i64, v: i64) {
         ev(format!(
@@ -1362,10 +1375,10 @@ fn exec_op(op: &Value, ctx: &mut Ctx) {
                 "somedo" => ret_some_do!(move |v: i64| {
                     ev(format!(r#"{{"e":"retcb","rid":{},"has":true,"val":{}}}"#, rid, v));
                 }),
-                "to" | "someto" => {
+                "to" | "someto" | "toprep" => {
                     // inside the target's own method: the `[cx], |this, cx, m| ...` forms
                     if let Ctx::M(n, cx) = ctx {
-                        if n.aid == aid && rid % 2 == 0 {
+                        if n.aid == aid && rid % 2 == 0 && kind != "toprep" {
                             let r: Ret<i64> = if kind == "to" {
                                 ret_to!([cx], |this, cx, m: Option<i64>| this.retm(cx, rid, m))
                             } else {
@@ -1385,6 +1398,8 @@ fn exec_op(op: &Value, ctx: &mut Ctx) {
                     };
                     if kind == "to" {
                         ret_to!([a], retm(rid) as (i64))
+                    } else if kind == "toprep" {
+                        ret_to!([a], Node::initret(aid, rid) as (i64))
                     } else {
                         ret_some_to!([a], retsome(rid) as (i64))
                     }
